@@ -52,6 +52,9 @@ Names == {Desc(n, <<MType("T", OddStruct), MMethod("M", OddStruct, OddStruct2), 
                     MError("E", <<OddStructE>>), MError("Bare", <<>>), MError("Empty", <<Struct(<<>>)>>)>>) : n \in IfaceNames}
          \cup {Desc("a.b", <<MError("E", <<Struct(<<F("error", Leaf("string")), F("code", Leaf("int"))>>)>>), MMethod("M", Struct(<<>>), Struct(<<>>))>>)}
          \cup {Desc("a.b", <<MError("OnlyBare", <<>>), MMethod("M", Struct(<<>>), Struct(<<>>))>>)}
+         \* field names that differ only in case (JSON member names are case-sensitive, Go's decoder is not)
+         \cup {Desc("a.b", <<MMethod("M", Struct(<<F("ab", Leaf("int")), F("aB", Leaf("int"))>>), Struct(<<F("xy", Leaf("string")), F("xY", Leaf("string")), F("s", Struct(<<F("kk", Leaf("int")), F("kK", Leaf("int"))>>))>>)),
+                            MError("E", <<Struct(<<F("ab", Leaf("int")), F("aB", Leaf("int"))>>)>>)>>)}
          \cup {Desc("a.b", <<MType("Rec", Struct(<<F("next", Maybe(Alias("Rec"))), F("all", Arr(Alias("Rec"))), F("m", Map(Alias("Rec")))>>)),
                             MMethod("M", Struct(<<F("r", Alias("Rec"))>>), Struct(<<F("r", Maybe(Alias("Rec")))>>))>>)}
 (* minimal descriptions: one method, one type, nothing else (no alias, no error): the emitted file's imports *)
